@@ -57,7 +57,9 @@ def judge(rec, obs, pinned_only=True):
         if kb != kr[:len(kb)]:
             return "events before the read error are not a prefix of the reference"
         return None
-    if fault and obs.get("nreads", 0) >= fault:
+    if fault and scn.get("faultKind") == "intr" and res == "ok":
+        pass  # an interrupted read may be retried by a layer below the roll buffer
+    elif fault and obs.get("nreads", 0) >= fault:
         return "read error at read %d not returned (result %s)" % (fault, res)
     # uninterrupted
     if res != "ok":
@@ -130,6 +132,14 @@ def explore(chk, cfgname, workers=12, timeout=900, variants=("as_is",), simulate
                     continue
                 j["reads"] = []
                 j["fallback"] = 0
+            elif v == "intr":
+                if r["scn"]["strat"] != "reader" or not r["scn"]["faultAt"]:
+                    continue
+                j["scn"] = dict(r["scn"], faultKind="intr")
+            elif v == "heap":
+                if r["scn"]["strat"] != "reader" or r["scn"]["faultAt"]:
+                    continue
+                j["heap_limit"] = len(r["scn"]["inp"]) + 1
             elif v == "multiline":
                 if r["scn"]["path"] == "slow" or r["scn"]["bin"] != "none" or r["scn"]["cfg"]["term"] == "nul":
                     continue
@@ -140,7 +150,7 @@ def explore(chk, cfgname, workers=12, timeout=900, variants=("as_is",), simulate
     conf_mismatch = 0
     for j, o in zip(jobs, obs):
         r = recs[j["_i"]]
-        why = judge(r, o)
+        why = judge(dict(r, scn=j["scn"]), o)
         if why is None and extra_judge:
             why = extra_judge(r, o, j)
         if why is not None:
@@ -151,8 +161,8 @@ def explore(chk, cfgname, workers=12, timeout=900, variants=("as_is",), simulate
             continue
         chk.validated += 1
         if j["_v"] == "as_is" and r["scn"]["bin"] == "none":
-            mo = [ev_key(e) for e in r["out"] if e["k"] != "finish"]
-            oo = [ev_key(e) for e in o["out"] if e["k"] != "finish"]
+            mo = [ev_key(e) for e in r["out"]]
+            oo = [ev_key(e) for e in o["out"]]
             if mo != oo or r["result"] != o["result"]:
                 conf_mismatch += 1
         k = nontrivial_key(r)
